@@ -87,7 +87,7 @@ def _const_val(t):
     return None
 
 
-def transcendental_axioms(apps):
+def transcendental_axioms(apps, light=False):
     ax = []
     ex = list(apps["EXP"].values())
     one, zero = rv(1), rv(0)
@@ -96,9 +96,14 @@ def transcendental_axioms(apps):
     for t in ex:
         simp[z3.simplify(t).sexpr()] = t
     for t in ex:
-        ax += [E(t) > 0, E(t) >= 1 + t, z3.Implies(t < 1, E(t) * (1 - t) <= 1),
-               z3.Implies(t >= 0, E(t) >= 1 + t + t * t / 2), z3.Implies(t <= 0, E(t) <= 1 + t + t * t / 2),
-               z3.Implies(t == 0, E(t) == 1), z3.Implies(t > 0, E(t) > 1), z3.Implies(t < 0, E(t) < 1)]
+        ax += [E(t) > 0, z3.Implies(t == 0, E(t) == 1), z3.Implies(t > 0, E(t) > 1), z3.Implies(t < 0, E(t) < 1)]
+        if light:
+            neg = simp.get(z3.simplify(-t).sexpr())
+            if neg is not None:
+                ax.append(E(t) * E(neg) == 1)
+            continue
+        ax += [E(t) >= 1 + t, z3.Implies(t < 1, E(t) * (1 - t) <= 1),
+               z3.Implies(t >= 0, E(t) >= 1 + t + t * t / 2), z3.Implies(t <= 0, E(t) <= 1 + t + t * t / 2)]
         # third-order Taylor enclosure on |t| <= 1:  |e^t - (1+t+t^2/2)| <= |t|^3/2
         at = z3.If(t >= 0, t, -t)
         ax += [z3.Implies(z3.And(t >= -1, t <= 1), z3.And(E(t) <= 1 + t + t * t / 2 + at * at * at / 2,
@@ -117,8 +122,11 @@ def transcendental_axioms(apps):
             ax.append(E(a) * E(b) == E(s))
     lg = list(apps["LOG"].values())
     for s in lg:
-        ax += [z3.Implies(s > 0, z3.And(L(s) <= s - 1, L(s) * s >= s - 1, E(L(s)) == s)),
+        ax += [z3.Implies(s > 0, E(L(s)) == s),
                z3.Implies(s == 1, L(s) == 0), z3.Implies(s > 1, L(s) > 0), z3.Implies(z3.And(s > 0, s < 1), L(s) < 0)]
+        if light:
+            continue
+        ax += [z3.Implies(s > 0, z3.And(L(s) <= s - 1, L(s) * s >= s - 1))]
         c = _const_val(s)
         if c is not None and c > 0:
             lo, hi = _enclose(mpmath.log, c)
@@ -201,15 +209,52 @@ def _refine(apps, env, round_no):
     return ax
 
 
+def holds_leniently(goal, env, tol=1e-25, memo=None):
+    """Evaluate a goal with the true functions (50 digits); comparisons are relaxed by a relative `tol` so that
+    rounding in the evaluation itself is never mistaken for a violation: False only if the goal fails by more
+    than tol."""
+    memo = {} if memo is None else memo
+
+    def ev(e):
+        if z3.is_true(e):
+            return True
+        if z3.is_false(e):
+            return False
+        k = e.decl().kind()
+        ch = e.children()
+        if k == z3.Z3_OP_AND:
+            return all(ev(c) for c in ch)
+        if k == z3.Z3_OP_OR:
+            return any(ev(c) for c in ch)
+        if k == z3.Z3_OP_IMPLIES:
+            return (not zeval(ch[0], env, mpmath, memo)) or ev(ch[1])
+        if k == z3.Z3_OP_ITE and z3.is_bool(e):
+            return ev(ch[1]) if zeval(ch[0], env, mpmath, memo) else ev(ch[2])
+        if k == z3.Z3_OP_NOT:
+            return not zeval(ch[0], env, mpmath, memo)
+        if k in (z3.Z3_OP_LE, z3.Z3_OP_LT, z3.Z3_OP_GE, z3.Z3_OP_GT, z3.Z3_OP_EQ) and not z3.is_bool(ch[0]):
+            a, b = zeval(ch[0], env, mpmath, memo), zeval(ch[1], env, mpmath, memo)
+            if a != a or b != b:
+                return False
+            sl = tol * max(1, abs(a), abs(b))
+            if k in (z3.Z3_OP_LE, z3.Z3_OP_LT):
+                return a <= b + sl if k == z3.Z3_OP_LE else a < b + sl
+            if k in (z3.Z3_OP_GE, z3.Z3_OP_GT):
+                return a + sl >= b if k == z3.Z3_OP_GE else a + sl > b
+            return abs(a - b) <= sl
+        return bool(zeval(e, env, mpmath, memo))
+    return ev(goal)
+
+
 def _true_counterexample(hyps, goal, env):
-    """evaluate hyps and goal with the true functions at the model's variable assignment"""
+    """evaluate hyps and goal with the true functions at the model's variable assignment; the goal must fail by
+    more than the evaluation tolerance"""
     try:
         memo = {}
         for h in hyps:
             if not zeval(h, env, mpmath, memo):
                 return False
-        g = zeval(goal, env, mpmath, memo)
-        return not g
+        return not holds_leniently(goal, env, 1e-25, memo)
     except (Unsupported, ZeroDivisionError, ValueError, TypeError):
         return False
 
@@ -225,15 +270,44 @@ def prove(name, hyps, goal, timeout_ms=30000, rounds=6, use_cvc5=True, quant_fre
     base = list(hyps)
     if "PI" in consts:
         base += PI_FACTS
+    # close the set of exp/log arguments under the terms introduced by the axioms (E(L(s))) and under the
+    # summands of top-level sums (so that exp(a+b) = exp(a)exp(b) can be instantiated)
+    for s in list(apps["LOG"].values()):
+        apps["EXP"].setdefault(L(s).get_id(), L(s))
+    if apps["LOG"]:
+        # goal-directed: an equality l == r between terms containing logarithms is proved by comparing exp(l) with
+        # exp(r) (exp is injective: the pairwise monotonicity axioms are instantiated for l and r)
+        gs = z3.simplify(goal)
+        for eq in ([gs] if not z3.is_and(gs) else gs.children()):
+            if z3.is_eq(eq) and eq.arg(0).sort() == z3.RealSort():
+                for side in (eq.arg(0), eq.arg(1)):
+                    apps["EXP"].setdefault(side.get_id(), side)
+    for t in list(apps["EXP"].values()):
+        if z3.is_app(t) and t.decl().kind() == z3.Z3_OP_ADD and t.num_args() == 2:
+            for c in t.children():
+                apps["EXP"].setdefault(c.get_id(), c)
+                neg = z3.simplify(-c)
+                apps["EXP"].setdefault(neg.get_id(), neg)
+    extra_args = {k: dict(v) for k, v in apps.items()}
     hyps2, goal, n_unified = unify_uf_args(base, goal, apps)
     if n_unified:
         base = hyps2
         apps, consts = _collect(base + [goal])
+        for fam in extra_args:
+            for t in extra_args[fam].values():
+                apps[fam].setdefault(t.get_id(), t)
         if z3.is_true(z3.simplify(goal)):
             return Result(name, "proved", "z3", time.time() - t0, detail=f"after unifying {n_unified} provably equal exp/log arguments")
-    # close the set of exp/log arguments under the terms introduced by the axioms (E(L(s)))
-    for s in list(apps["LOG"].values()):
-        apps["EXP"].setdefault(L(s).get_id(), L(s))
+    has_tr0 = any(apps[k] for k in apps)
+    if has_tr0 and quant_free:
+        # phase 1: light axiom set (signs, inverse laws, monotonicity, product laws) under a short budget
+        s1 = z3.Solver()
+        s1.set("timeout", int(min(timeout_ms, 8000)))
+        s1.add(*base)
+        s1.add(*transcendental_axioms(apps, light=True))
+        s1.add(z3.Not(goal))
+        if s1.check() == z3.unsat:
+            return Result(name, "proved", "z3", time.time() - t0, detail="light axiom set")
     axioms = transcendental_axioms(apps)
     s = z3.Solver()
     s.set("timeout", int(timeout_ms))
@@ -251,7 +325,9 @@ def prove(name, hyps, goal, timeout_ms=30000, rounds=6, use_cvc5=True, quant_fre
             break
         m = s.model()
         env = _model_env(m, consts)
-        if _true_counterexample(base, goal, env):
+        env_m = dict(env)
+        env_m["__model__"] = m
+        if _true_counterexample(base, goal, env_m):
             return Result(name, "refuted", "z3" if rnd == 0 else "z3+cegar", time.time() - t0,
                           model={k: _fstr(v) for k, v in sorted(env.items())},
                           detail="model satisfies the hypotheses and falsifies the goal under the true exp/log/tanh", rounds=rnd)
@@ -415,5 +491,14 @@ def witness_search(hyps, goal, boxes, special=(), n=4000, seed=0):
     for p in pts:
         env = dict(zip(names, p))
         if _true_counterexample(hyps, goal, env):
-            return env
+            # a violation must persist at much higher working precision (cancellation in the evaluation itself
+            # is not a property violation)
+            old = mpmath.mp.dps
+            try:
+                mpmath.mp.dps = 400
+                still = _true_counterexample(hyps, goal, env)
+            finally:
+                mpmath.mp.dps = old
+            if still:
+                return env
     return None
